@@ -17,7 +17,7 @@ import (
 
 func c05Plan(tier string) histPlan {
 	if tier == "thorough" {
-		return histPlan{Enum: gen.EnumParams{MaxAdds: []int{5, 4, 3}}, Rand: 150000, Tall: 100}
+		return histPlan{Enum: gen.EnumParams{MaxAdds: []int{5, 4, 3}}, Rand: 600000, Tall: 300}
 	}
 	return histPlan{Enum: gen.EnumParams{MaxAdds: []int{4, 3, 2}}, Rand: 12000, Tall: 6}
 }
@@ -37,7 +37,7 @@ func init() {
 		Plan: func(tier string) []core.Suite {
 			n := 2500
 			if tier == "thorough" {
-				n = 80000
+				n = 400000
 			}
 			return append(c05Plan(tier).suites(), core.Suite{Name: "undo", N: n})
 		},
